@@ -7,7 +7,8 @@ Confirmed candidates are copied to /verif/seeded/<ID>-<k>/ (k continues after th
 """
 import json, os, re, shutil, subprocess, sys
 
-ROOT = "/tmp/mut2"
+ROOT = os.environ.get("MUT_ROOT", "/tmp/mut2")
+ROUND = int(os.environ.get("MUT_ROUND", "2"))
 
 
 def sh(cmd, **kw):
@@ -50,7 +51,7 @@ def main():
             shutil.copy(patch, f"{d}/patch.diff"); shutil.copy(demo, f"{d}/demo.py")
             if os.path.exists(f"{out}/notes.md"):
                 shutil.copy(f"{out}/notes.md", f"{d}/notes.md")
-            meta = {"property": pid, "round": 2,
+            meta = {"property": pid, "round": ROUND,
                     "written_by": f"independent sub-agent given only the property record and a scratch worktree of /repo at {head} (nothing from /verif)",
                     "base_commit": head, "what_it_needs_to_manifest": f"see notes.md (section for patch {n})", "confirmed": True,
                     "what_was_run": {"tests_with_patch (cd <worktree> && /venv/bin/python -m pytest -q -p no:cacheprovider test)": res["tests"],
